@@ -145,7 +145,11 @@ def check_case(ctx, case):
             ctx.fail_exc(f"delta:gamma-raises:{type(e).__name__}", e, monitor="M-META-delta-gamma")
             return
         ga, gb = float(g1.gamma), float(g2.gamma)
-        if not (abs(ga - gb) <= 1e-4 * max(1.0, abs(ga))):
+        same = (ga == gb) or (ga != ga and gb != gb) or (abs(ga - gb) <= 1e-4 * max(1.0, abs(ga)))
+        if float(g1.expected_disorder) == 0.0 or float(g2.expected_disorder) == 0.0:
+            ctx.observe("gamma_undefined_expected_disorder_zero", True)
+            same = True   # 1 - observed/0: the ratio is undefined on both sides, nothing to compare
+        if not same:
             ctx.fail("gamma-changes-under-delta-scaling", {"gamma": ga, "gamma_scaled": gb, "factor": factor,
                                                            "observed": [float(g1.observed_disorder), float(g2.observed_disorder)],
                                                            "expected": [float(g1.expected_disorder), float(g2.expected_disorder)]},
